@@ -892,8 +892,8 @@ func c09(c *wk.Ctx) {
 			r.Violationf("C09|"+kind+"|outcome=process-died", json.RawMessage(d.Desc), "pipe %s case killed the process (exit %d): %s", kind, d.Result.Exit, wk.Tail(d.Result.Stderr, 800))
 		}
 	}
-	nMem, nFile := c.N(2400, 24000), c.N(24, 240)
-	nFreeMem, nFreeFile := c.N(240, 2400), c.N(8, 60)
+	nMem, nFile := c.N(2400, 120000), c.N(24, 720)
+	nFreeMem, nFreeFile := c.N(240, 12000), c.N(8, 120)
 	type job struct {
 		name       string
 		start, end int
